@@ -29,6 +29,10 @@ pub fn string_op<'b>(ctx: &mut Ctx, bump: &'b Bump, s: &mut BString<'b>, t: &mut
     let r = string_op_inner(ctx, bump, s, t, code, a, b, c);
     // Room obtained from with_capacity_in / reserve stays with the string until it is shrunk explicitly or assigned
     // wholesale: no other operation may lower the capacity (C18: reserved capacity is usable later without moving).
+    let exact_reservation = code == 17 && a & 1 == 1;
+    if matches!(r, SAfter::Keep) && !exact_reservation && code != 28 && code != 18 && cap_before > 0 && s.capacity() > cap_before && s.capacity() < 2 * cap_before {
+        ctx.v("C18", format!("String operation #{code} grew the capacity from {cap_before} to {} (less than double)", s.capacity()));
+    }
     if matches!(r, SAfter::Keep) && code != 28 && code != 18 && s.capacity() < cap_before {
         ctx.v("C18", format!("String operation #{code} lowered the capacity from {cap_before} to {} without shrink_to_fit", s.capacity()));
     }
